@@ -170,6 +170,45 @@ def sharing(sid, mutate, **slots):
     return None
 
 
+_PAIR = T("SEQ", comps=[("x", T("INT"), "req", None), ("y", T("INT"), "req", None)])
+_DEFL = [{"x": 1, "y": 10}, {"x": 2, "y": 20}]
+
+
+def default_sharing(omit, k, newval, via, order):
+    """SEQUENCE {a INTEGER, l SEQUENCE OF SEQUENCE{x,y} DEFAULT {{1,10},{2,20}}, s SEQUENCE{x,y} OPTIONAL}: two results decoded with one
+    type object; an in-place edit deep inside one of them (element k of l, or s) changes neither the other result, nor the type's default, nor a
+    result decoded afterwards."""
+    t = T("SEQ", comps=[("a", T("INT"), "req", None), ("l", T("SEQOF", elem=_fresh(_PAIR)), "def", _DEFL), ("s", _fresh(_PAIR).tagged(("I", "C", 0)), "opt", None)])
+    spec = mk_type(t)
+    av = {"a": 5, "s": {"x": 3, "y": 30}}
+    if not omit:
+        av["l"] = [{"x": 1, "y": 10}, {"x": 2, "y": 21}]
+    enc = der_encoder.encode(build(t, av))
+    w1, _ = ber_decoder.decode(enc, asn1Spec=spec)
+    w2, _ = ber_decoder.decode(enc, asn1Spec=spec)
+    if order:
+        w1, w2 = w2, w1
+    before_t = der_encoder.encode(spec.componentType["l"].asn1Object)
+    before_2 = der_encoder.encode(w2)
+    if via == 0:
+        w1["l"][k]["y"] = newval
+    elif via == 1:
+        w1["s"]["y"] = newval
+    else:
+        c = w1.clone(cloneValueFlag=True)
+        c["l"][k]["y"] = newval
+        if der_encoder.encode(w1) != enc:
+            return "editing a deep copy changed the original"
+    if der_encoder.encode(spec.componentType["l"].asn1Object) != before_t:
+        return "editing a decoded result changed the DEFAULT value held by the type"
+    if der_encoder.encode(w2) != before_2:
+        return "editing one decoded result changed the other"
+    w3, _ = ber_decoder.decode(enc, asn1Spec=spec)
+    if der_encoder.encode(w3) != enc:
+        return "a result decoded afterwards differs"
+    return None
+
+
 def history_indep(sid, n_prior, p0, p1, which, **slots):
     e = by_id(sid)
     av = e.mk(**slots)
@@ -343,6 +382,8 @@ def stream_isolated(sid, c1, eof_with_last):
 for _sid in ("two_ints_octs", "hi_tags_x3", "der_seq_x2", "choice_expl_indef"):
     OBLIGATIONS.append(Obl("stream_isolated:%s" % _sid, stream_isolated, {"sid": C(_sid), "c1": I(0, len(BY_ID[_sid].data)), "eof_with_last": B}, budget=120,
                            doc="one decoder instance over several items vs each item decoded in isolation; every two-chunk arrival"))
+OBLIGATIONS.append(Obl("default_sharing", default_sharing, {"omit": B, "k": I(0, 1), "newval": I(98, 99), "via": I(0, 2), "order": B}, budget=120,
+                       doc="deep in-place edits of one decoded result (incl. inside a DEFAULT SEQUENCE OF of records) vs the other result, the type's default and later results"))
 PAIRS = [("der_seq", "ber_indef_chunked"), ("cer_set", "choice_expl_indef"), ("two_ints_octs", "bits_chunked"), ("hi_tags_x3", "two_ints_octs"), ("der_seq", "der_seq"), ("hi_tag", "der_seq_x2")]
 for (a, b) in PAIRS:
     OBLIGATIONS.append(Obl("interleave:%s+%s" % (a, b), interleave,
